@@ -15,3 +15,21 @@ Definition node := option (Z * Z).
 Definition node_nonnil (n : node) : bool := match n with Some _ => true | None => false end.
 Definition node_key (n : node) : Z := match n with Some (k, _) => k | None => 0%Z end.
 Definition node_value (n : node) : Z := match n with Some (_, v) => v | None => 0%Z end.
+
+(* CALLS of a comparator (pointer mode of the trees, treeheap.go): `tree.Comparator(a, b)` is an int of which Go code may
+   only use the SIGN.  The sign is the model's three-way answer [c a b]; the magnitude is ARBITRARY: a parameter
+   [mag] of the generated definitions (Section variable cmp_mag), so that code comparing the result with anything but
+   0 (`compare == -1`) is not provably equivalent to code testing the sign.  The generated code counts the calls in a
+   ghost counter (ncmp) that is threaded through every function that reaches a comparator. *)
+Definition call_cmp (mag : Z -> Z -> positive) (c : comparator) (a b : Z) : Z :=
+  match c a b with Eq => 0%Z | Lt => Zneg (mag a b) | Gt => Zpos (mag a b) end.
+
+Lemma call_cmp_Eq : forall mag c a b, c a b = Eq ->
+  (call_cmp mag c a b =? 0)%Z = true.
+Proof. intros mag c a b H. unfold call_cmp. now rewrite H. Qed.
+Lemma call_cmp_Lt : forall mag c a b, c a b = Lt ->
+  (call_cmp mag c a b =? 0)%Z = false /\ (call_cmp mag c a b <? 0)%Z = true /\ (0 <? call_cmp mag c a b)%Z = false.
+Proof. intros mag c a b H. unfold call_cmp. rewrite H. repeat split. Qed.
+Lemma call_cmp_Gt : forall mag c a b, c a b = Gt ->
+  (call_cmp mag c a b =? 0)%Z = false /\ (call_cmp mag c a b <? 0)%Z = false /\ (0 <? call_cmp mag c a b)%Z = true.
+Proof. intros mag c a b H. unfold call_cmp. rewrite H. repeat split. Qed.
